@@ -193,3 +193,62 @@ def load(d, name):
         with open(p) as f:
             _loaded[p] = json.load(f)
     return _loaded[p]
+
+
+# ---------------------------------------------------------------- renamed private anchor functions
+# The rules name a handful of PRIVATE functions. Renaming a private function is a behaviour-preserving edit, so when the
+# canonical name is absent and exactly one function has the anchor's role (module + signature), every occurrence of its
+# def path in the facts is rewritten to the canonical name before the rules run. Public API names are not aliased.
+def _sig(f):
+    return [t for t in f.get("inputs", [])], f.get("output") or ""
+
+
+ANCHOR_ROLES = {
+    "blots_core-rlib.json": [
+        ("blots_core::expressions::evaluate_binary_op_ast", lambda n, f: n.startswith("blots_core::expressions::") and f.get("inputs") and f["inputs"][0] == "blots_core::ast::BinaryOp" and sum(1 for t in f["inputs"] if "ast::Spanned<blots_core::ast::Expr>" in t) == 2 and "values::Value" in f.get("output", "")),
+        ("blots_core::expressions::collect_free_variables", lambda n, f: n.startswith("blots_core::expressions::") and len(f.get("inputs", [])) == 3 and "ast::Spanned<blots_core::ast::Expr>" in f["inputs"][0] and f["inputs"][1].startswith("&mut alloc::vec::Vec<alloc::string::String>") and "HashSet<alloc::string::String" in f["inputs"][2]),
+        ("blots_core::expressions::check_ordering", lambda n, f: n.startswith("blots_core::expressions::") and f.get("inputs") and "Option<core::cmp::Ordering>" in f["inputs"][0] and f.get("output", "").startswith("core::result::Result<bool")),
+        ("blots_core::expressions::pairs_to_expr_inner", lambda n, f: n.startswith("blots_core::expressions::") and len(f.get("inputs", [])) == 2 and "iterators::pairs::Pairs<" in f["inputs"][0] and f["inputs"][1] == "bool" and "ast::Spanned<blots_core::ast::Expr>" in f.get("output", "")),
+        ("blots_core::expressions::parse_record_entry", lambda n, f: n.startswith("blots_core::expressions::") and "ast::RecordEntry" in f.get("output", "") and f.get("inputs") and "iterators::pair::Pair<" in f["inputs"][0]),
+        ("blots_core::expressions::flatten_spread_value", lambda n, f: n.startswith("blots_core::expressions::") and f.get("inputs") and "heap::IterablePointer" in f["inputs"][0] and "Vec<blots_core::values::Value>" in f.get("output", "")),
+        ("blots_core::expressions::evaluate_do_block_expr", lambda n, f: n.startswith("blots_core::expressions::") and n != "blots_core::expressions::evaluate_ast" and f.get("vis") != "pub" and
+            [t.split("<")[0] for t in f.get("inputs", [])] == ["&blots_core::ast::Spanned", "alloc::rc::Rc", "alloc::rc::Rc", "usize", "alloc::rc::Rc"] and "values::Value" in f.get("output", "")),
+        ("blots_core::ast_to_source::serializable_value_to_source", lambda n, f: n.startswith("blots_core::ast_to_source::") and f.get("inputs") == ["&blots_core::values::SerializableValue"] and f.get("output") == "alloc::string::String"),
+    ],
+    "blots-executable.json": [
+        ("blots::evaluate_source", lambda n, f: n.startswith("blots::") and len(f.get("inputs", [])) == 4 and f["inputs"][0] == "&str" and "IndexMap<alloc::string::String, blots_core::values::SerializableValue" in f["inputs"][3]),
+        ("blots::write_outputs", lambda n, f: n.startswith("blots::") and len(f.get("inputs", [])) == 2 and f["inputs"][0].startswith("&indexmap::map::IndexMap<alloc::string::String, blots_core::values::SerializableValue") and "Option<" in f["inputs"][1]),
+        ("blots::parse_json_inputs", lambda n, f: n.startswith("blots::") and f.get("inputs") and f["inputs"][0] == "&str" and "IndexMap<alloc::string::String, blots_core::values::Value" in f.get("output", "")),
+    ],
+}
+RENAMED = {}
+
+
+def canonicalise(fdir_profile):
+    """returns {file: parsed json} for the three crates with renamed private anchors rewritten to their canonical names"""
+    import re as _re
+    key = fdir_profile
+    if key in _loaded:
+        return _loaded[key]
+    files = ["blots_core-rlib.json", "blots-executable.json", "blots_wasm-cdylib.json"]
+    parsed = {fn: load(fdir_profile, fn) for fn in files}
+    renames = {}
+    for fn, roles in ANCHOR_ROLES.items():
+        hir = parsed[fn]["hir"]
+        for canon, pred in roles:
+            if canon in hir:
+                continue
+            c = [n for n, f in hir.items() if f.get("kind") in ("Fn", "AssocFn") and "::{closure" not in n and pred(n, f)]
+            if len(c) == 1:
+                renames[c[0]] = canon
+    if renames:
+        for fn in files:
+            with open(os.path.join(fdir_profile, fn)) as fh:
+                txt = fh.read()
+            for old, new in sorted(renames.items(), key=lambda kv: -len(kv[0])):
+                # a def path is always followed by a quote or by `::` (closures / nested items)
+                txt = _re.sub(_re.escape(old) + r'(?=["\\:])', new, txt)
+            parsed[fn] = json.loads(txt)
+        RENAMED.update(renames)
+    _loaded[key] = parsed
+    return parsed
